@@ -109,10 +109,14 @@ char *verif_strdup(const char *s);
 #define REPROC_VERIF_LOOP_setup_input                                          \
   __CPROVER_assigns(written, r, g.os_calls, g.wr_calls, g.wr_fd, g.wr_buf, g.wr_n, \
                     g.wr_errno, g.wr_ret, g.may_block, g.err, g.faults,        \
-                    g.first_errno, g.stream_pos, g.in_fd)                      \
+                    g.first_errno, g.last_fault, g.stream_pos, g.in_fd)                      \
   __CPROVER_loop_invariant(written <= size && g.stream_pos == written &&       \
                            g.may_block == __CPROVER_loop_entry(g.may_block) && \
                            g.faults == __CPROVER_loop_entry(g.faults) &&       \
+                           g.err == __CPROVER_loop_entry(g.err) &&             \
+                           g.first_errno == __CPROVER_loop_entry(g.first_errno) && \
+                           g.last_fault == __CPROVER_loop_entry(g.last_fault) && \
+                           g.os_calls >= __CPROVER_loop_entry(g.os_calls) &&   \
                            (written == 0 ? g.in_fd == -1 : g.in_fd == *pipe))                 \
   __CPROVER_decreases(size - written)
 /* close-all loop of process_fork (child side): everything below i that is not
@@ -132,9 +136,10 @@ char *verif_strdup(const char *s);
                            (g.wr & VERIF_KEEP_MASK) == (__CPROVER_loop_entry(g.wr) & VERIF_KEEP_MASK) && \
                            VERIF_OBJ_KEPT(0) && VERIF_OBJ_KEPT(1) && VERIF_OBJ_KEPT(2) && \
                            VERIF_OBJ_KEPT(3) && VERIF_OBJ_KEPT(4) && VERIF_OBJ_KEPT(5) && \
-                           g.faults >= __CPROVER_loop_entry(g.faults) && g.faults <= 1000 && \
-                           g.err >= 0 && g.err < 134 && g.first_errno >= 0 && g.first_errno < 134 && \
-                           (__CPROVER_loop_entry(g.faults) == 0 || g.first_errno == __CPROVER_loop_entry(g.first_errno))) \
+                           g.faults == __CPROVER_loop_entry(g.faults) && \
+                           g.first_errno == __CPROVER_loop_entry(g.first_errno) && \
+                           g.last_fault == __CPROVER_loop_entry(g.last_fault) && \
+                           g.err >= 0 && g.err < 134 && g.os_calls >= __CPROVER_loop_entry(g.os_calls)) \
   __CPROVER_decreases(max_fd + 1 - (long) i)
 #endif
 #ifndef REPROC_VERIF_LOOP_setup_input
